@@ -124,8 +124,15 @@ def run_one(sh, case, driver='generated'):
                 res = bg.df_features
                 sh.note('via_BycycleGroup')
             else:
-                res = compute_features_2d(as_layout(sigs), fs, f_range, compute_features_kwargs=copy.deepcopy(kw),
+                opts = copy.deepcopy(kw)
+                res = compute_features_2d(as_layout(sigs), fs, f_range, compute_features_kwargs=opts,
                                           axis=None, return_samples=True, n_jobs=1)
+                if case.get('reuse_options'):
+                    # the caller keeps its option list / dict and analyses again with the SAME objects: the second result is
+                    # the one that is checked below
+                    res = compute_features_2d(as_layout(sigs), fs, f_range, compute_features_kwargs=opts,
+                                              axis=None, return_samples=True, n_jobs=1)
+                    sh.note('second_call_with_the_same_option_objects:%s' % ('list' if isinstance(kw, list) else 'dict'))
     except Exception as e:
         vs.append({'mechanism': attach.exc_mechanism(e),
                    'message': 'compute_features_2d(axis=None) raised %r; flattened analysis has %d cycles, %d epochs of %d samples'
@@ -292,7 +299,7 @@ def make_case(rng):
                 del o['threshold_kwargs']          # this epoch uses the documented defaults
             kw.append(o)
     return dict(sigs=sigs, fs=fs, f_range=(lo, hi), kwargs=kw, aligned=bool(aligned), family=fam,
-                layout=['C', 'C', 'F', 'T'][int(rng.integers(0, 4))],
+                layout=['C', 'C', 'F', 'T'][int(rng.integers(0, 4))], reuse_options=bool(rng.random() < 0.4),
                 api='obj' if (isinstance(kw, dict) and rng.random() < 0.25) else 'func')
 
 
